@@ -7,7 +7,7 @@ def run(tier, prop="C19", lang="C19"):
     params = {"lexN": 3, "ins": 1, "printN": 1, "skel": c.seed % 4} if q else {"lexN": 4, "ins": 2, "printN": 2, "skel": -1}
     rx = "^Verif%s(Lexer|ParseMutated)$" % lang if prop == "C20" else "^VerifC19(Lexer|ParseMutated|PrintError)$"
     c.run_pkg(REPO, "./internal/tlast", os.path.join(REPO, "internal/tlast"), "tlast", f, rx, params=params, max_models=10 if q else 40,
-              wall="40s" if q else "900s", soft_trunc="record")
+              wall="90s" if q else "900s", soft_trunc="record")
     c.assumptions += ["lexer: EVERY byte string up to lexN bytes; parser: valid skeleton schemas with one byte substituted by any of the 256 values, <= ins arbitrary bytes inserted, or truncated, at every position",
                       "error printing: arbitrary (also inconsistent) offsets over a text of <= printN bytes; output is discarded (fmt.Fprintf stubbed)"]
     return c.finish(bounds=params, outside=["longer arbitrary texts (the lexer is a one-token-at-a-time loop over the remaining string)", "mutations of more than ins+1 bytes at once", "skeletons other than the built-in ones"])
